@@ -45,41 +45,137 @@ fn peel(ctx: &Ctx, two_hop: bool, base_height: u32, delta_last: u32, htlc_cltv: 
 /// Returns (outCltv, inCltv, height of B's commitment broadcast, height at which B fails back upstream, height at which
 /// the HTLC-timeout confirmed).
 fn dead_downstream(mine_timeout_after: u32) -> Option<(u32, u32, Option<u32>, Option<u32>, Option<u32>)> {
+	dead_downstream_ex(mine_timeout_after, 1).map(|r| (r.0, r.1, r.2, r.3, r.4))
+}
+
+/// as above with blocks delivered `step` at a time (B uses a block-skipping Confirm style when `step > 1`: it only sees
+/// the last height of each batch); additionally returns B's best height before the first batch, every height delivered
+/// to B with (block contains B's commitment, block contains B's HTLC-timeout), and the impl's action log
+/// (`<h>:down`, `<h>:timeout`, `<h>:fail`; events are processed after every single delivery).
+fn dead_downstream_ex(mine_timeout_after: u32, step: u32) -> Option<(u32, u32, Option<u32>, Option<u32>, Option<u32>, u32, Vec<(u32, bool, bool)>, Vec<String>)> {
 	use ldk_verif_harness::sim::*;
-	use lightning::ln::functional_test_utils::{connect_blocks, mine_transaction};
-	// legacy (non-anchor) channels: the commitment is broadcast directly, no BumpTransaction event handling needed
+	use lightning::ln::functional_test_utils::{connect_blocks, mine_transaction, ConnectStyle};
 	let cfg = Some(lightning::ln::functional_test_utils::test_legacy_channel_config());
 	let mut net = Net::new(3, vec![cfg.clone(), cfg.clone(), cfg]);
 	let c0 = net.open(0, 1, 1_000_000, 400_000_000);
 	let c1 = net.open(1, 2, 1_000_000, 400_000_000);
 	let _p = net.send(&[0, 1, 2], &[c0, c1], 5_000_000, 70).ok()?;
-	net.settle(6); // C now holds the HTLC (claimable) and stays silent
+	net.settle(6);
 	let mut in_cltv = 0; let mut out_cltv = 0;
 	for o in &net.trace { if let Obs::Msg { from, to, kind: "add", detail, .. } = o {
 		let cltv: u32 = detail.split("cltv=").nth(1)?.trim().parse().ok()?;
 		if (*from, *to) == (0, 1) { in_cltv = cltv; } if (*from, *to) == (1, 2) { out_cltv = cltv; }
 	} }
 	if in_cltv == 0 || out_cltv == 0 { return None; }
+	if step > 1 { *net.nodes[1].connect_style.borrow_mut() = ConnectStyle::BestBlockFirstSkippingBlocks; }
+	let best0 = net.nodes[1].best_block_info().1;
 	let mut close_h = None; let mut fail_h = None; let mut timeout_conf = None; let mut timeout_seen: Option<(u32, bitcoin::Transaction)> = None;
 	let mut mined: Vec<bitcoin::Txid> = vec![];
 	let mut seen_b = net.nodes[1].tx_broadcaster.txn_broadcasted.lock().unwrap().len();
-	for _ in 0..(in_cltv + 20) {
-		for i in 0..3 { connect_blocks(&net.nodes[i], 1); }
+	let mut deliv: Vec<(u32, bool, bool)> = vec![]; let mut log: Vec<String> = vec![];
+	macro_rules! after_delivery { ($c: expr, $t: expr) => { {
+		let h = net.nodes[1].best_block_info().1; deliv.push((h, $c, $t));
+		net.pump_all(); net.process_events(1); net.pump_all();
+		if fail_h.is_none() && (net.trace.iter().any(|o| matches!(o, Obs::Msg { from: 1, to: 0, kind: "fail", .. })) || net.trace.iter().any(|o| matches!(o, Obs::Event { node: 1, text } if text.starts_with("HTLCHandlingFailed")))) { fail_h = Some(h); }
+	} } }
+	'outer: for _ in 0..(in_cltv + 20) {
+		for i in 0..3 { connect_blocks(&net.nodes[i], step); }
+		after_delivery!(false, false);
 		let h = net.nodes[1].best_block_info().1;
 		let txs: Vec<bitcoin::Transaction> = { let b = net.nodes[1].tx_broadcaster.txn_broadcasted.lock().unwrap(); let v = b[seen_b.min(b.len())..].to_vec(); seen_b = b.len(); v };
+		let mut to_mine = vec![];
 		for tx in txs {
 			if mined.contains(&tx.compute_txid()) { continue; }
-			if tx.lock_time.to_consensus_u32() == out_cltv && timeout_seen.is_none() { timeout_seen = Some((h, tx)); continue; } // B's HTLC-timeout
-			if close_h.is_none() && tx.input.len() == 1 && tx.output.len() >= 2 { close_h = Some(h); mined.push(tx.compute_txid()); for i in 0..3 { mine_transaction(&net.nodes[i], &tx); } }
+			if tx.lock_time.to_consensus_u32() == out_cltv && timeout_seen.is_none() { log.push(format!("{}:timeout", h)); timeout_seen = Some((h, tx)); continue; }
+			if close_h.is_none() && tx.input.len() == 1 && tx.output.len() >= 2 { close_h = Some(h); log.push(format!("{}:down", h)); mined.push(tx.compute_txid()); to_mine.push(tx); }
 		}
-		if let Some((seen_at, tx)) = &timeout_seen { if timeout_conf.is_none() && h >= seen_at + mine_timeout_after { for i in 0..3 { mine_transaction(&net.nodes[i], tx); } timeout_conf = Some(net.nodes[1].best_block_info().1); mined.push(tx.compute_txid()); } }
-		net.pump_all(); net.process_events(1); net.pump_all();
-		let h2 = net.nodes[1].best_block_info().1;
-		if fail_h.is_none() && net.trace.iter().any(|o| matches!(o, Obs::Msg { from: 1, to: 0, kind: "fail", .. })) { fail_h = Some(h2); break; }
-		if fail_h.is_none() && net.trace.iter().any(|o| matches!(o, Obs::Event { node: 1, text } if text.starts_with("HTLCHandlingFailed"))) { fail_h = Some(h2); break; }
+		if fail_h.is_some() { break 'outer; }
+		for tx in to_mine {
+			for i in 0..3 { mine_transaction(&net.nodes[i], &tx); }
+			after_delivery!(true, false);
+			let h = net.nodes[1].best_block_info().1;
+			let txs: Vec<bitcoin::Transaction> = { let b = net.nodes[1].tx_broadcaster.txn_broadcasted.lock().unwrap(); let v = b[seen_b.min(b.len())..].to_vec(); seen_b = b.len(); v };
+			for tx in txs { if tx.lock_time.to_consensus_u32() == out_cltv && timeout_seen.is_none() { log.push(format!("{}:timeout", h)); timeout_seen = Some((h, tx)); } }
+		}
+		if fail_h.is_some() { break 'outer; }
+		let h = net.nodes[1].best_block_info().1;
+		if let Some((seen_at, tx)) = &timeout_seen { if timeout_conf.is_none() && h >= seen_at + mine_timeout_after { for i in 0..3 { mine_transaction(&net.nodes[i], tx); } timeout_conf = Some(net.nodes[1].best_block_info().1); mined.push(tx.compute_txid()); after_delivery!(false, true); } }
+		if fail_h.is_some() { break 'outer; }
 	}
+	if let Some(fh) = fail_h { log.push(format!("{}:fail", fh)); }
 	std::mem::forget(net);
-	Some((out_cltv, in_cltv, close_h, fail_h, timeout_conf))
+	Some((out_cltv, in_cltv, close_h, fail_h, timeout_conf, best0, deliv, log))
+}
+
+/// (seeded C08-r4) A -> B -> C, a pending splice on the outbound channel B-C, the forwarded HTLC parked in B-C's holding
+/// cell (C owes a revoke_and_ack). `d` = (first height at which the HTLC is within the grace period) - (height at which
+/// B's splice locks). Blocks are connected to B one at a time. Returns (inCltv, outCltv, best height before the first
+/// block, per delivered block: (height, splice_locked emitted, HTLC left the holding cell, fail-back produced)).
+fn splice_cell(d: i32, style: Option<lightning::ln::functional_test_utils::ConnectStyle>) -> Result<(u32, u32, u32, Vec<(u32, bool, bool, bool)>), String> {
+	use ldk_verif_harness::sim::leak;
+	use lightning::ln::functional_test_utils::*;
+	use lightning::ln::splicing_tests::{initiate_splice_out, splice_channel};
+	use lightning::ln::channelmanager::PaymentId;
+	use lightning::events::{Event, HTLCHandlingFailureType};
+	use lightning::ln::msgs::{BaseMessageHandler, ChannelMessageHandler, MessageSendEvent};
+	use lightning::chain::channelmonitor::ANTI_REORG_DELAY;
+	use bitcoin::{Amount, TxOut};
+	use lightning::util::wallet_utils::WalletSourceSync;
+	let grace = vh::consts::LATENCY_GRACE_PERIOD_BLOCKS as u32;
+	let chanmon_cfgs = leak(create_chanmon_cfgs(3));
+	let node_cfgs = leak(create_node_cfgs(3, chanmon_cfgs));
+	let node_chanmgrs = leak(create_node_chanmgrs(3, node_cfgs, &[None, None, None]));
+	let nodes = create_network(3, node_cfgs, node_chanmgrs);
+	let ids: Vec<PublicKey> = nodes.iter().map(|n| n.node.get_our_node_id()).collect();
+	let (_, _, _chan_ab, _) = create_announced_chan_between_nodes(&nodes, 0, 1);
+	let (_, _, chan_bc, _) = create_announced_chan_between_nodes(&nodes, 1, 2);
+	let maxh = nodes.iter().map(|n| n.best_block_info().1).max().unwrap();
+	for n in &nodes { let dd = maxh - n.best_block_info().1; if dd > 0 { connect_blocks(n, dd); } }
+	let outputs = vec![TxOut { value: Amount::from_sat(1_000), script_pubkey: nodes[1].wallet_source.get_change_script().unwrap() }];
+	let contribution = initiate_splice_out(&nodes[1], &nodes[2], chan_bc, outputs).map_err(|e| format!("splice_out {:?}", e))?;
+	let (splice_tx, _) = splice_channel(&nodes[1], &nodes[2], chan_bc, contribution);
+	for n in &nodes { mine_transaction(n, &splice_tx); }
+	let lock_h = nodes[1].best_block_info().1 + ANTI_REORG_DELAY - 1;
+	for n in &nodes { connect_blocks(n, ANTI_REORG_DELAY - 3); }
+	if nodes[1].best_block_info().1 != lock_h - 2 { return Err("height bookkeeping".into()); }
+	let _ = nodes[1].node.get_and_clear_pending_msg_events();
+	// B's own payment to C, unanswered: B-C awaits C's revoke_and_ack
+	let (route, h1, _, s1) = lightning::get_route_and_payment_hash!(nodes[1], nodes[2], 100_000);
+	nodes[1].node.send_payment_with_route(route, h1, RecipientOnionFields::secret_only(s1, 100_000), PaymentId(h1.0)).map_err(|e| format!("send1 {:?}", e))?;
+	check_added_monitors(&nodes[1], 1);
+	let _ = nodes[1].node.get_and_clear_pending_msg_events();
+	// A -> B -> C with the outbound expiry chosen relative to the lock height
+	let (mut route, h2, _, s2) = lightning::get_route_and_payment_hash!(nodes[0], nodes[2], 100_000);
+	let last_delta = (grace as i32 + 1 + d) as u32;
+	route.paths[0].hops[1].cltv_expiry_delta = last_delta;
+	let out_cltv = nodes[0].best_block_info().1 + 1 + last_delta;
+	nodes[0].node.send_payment_with_route(route, h2, RecipientOnionFields::secret_only(s2, 100_000), PaymentId(h2.0)).map_err(|e| format!("send2 {:?}", e))?;
+	check_added_monitors(&nodes[0], 1);
+	let update_add = get_htlc_update_msgs(&nodes[0], &ids[1]);
+	let in_cltv = update_add.update_add_htlcs[0].cltv_expiry;
+	nodes[1].node.handle_update_add_htlc(ids[0], &update_add.update_add_htlcs[0]);
+	do_commitment_signed_dance(&nodes[1], &nodes[0], &update_add.commitment_signed, false, false);
+	expect_and_process_pending_htlcs(&nodes[1], false);
+	let in_cell = |nodes: &Vec<Node>| nodes[1].node.list_channels().iter().find(|c| c.channel_id == chan_bc).map(|c| c.pending_outbound_htlcs.iter().any(|h| h.payment_hash == h2 && h.htlc_id.is_none())).unwrap_or(false);
+	if !in_cell(&nodes) { std::mem::forget(nodes); return Err("HTLC did not reach the holding cell".into()); }
+	let _ = nodes[1].node.get_and_clear_pending_events(); let _ = nodes[1].node.get_and_clear_pending_msg_events();
+	if let Some(st) = style { *nodes[1].connect_style.borrow_mut() = st; }
+	let best0 = nodes[1].best_block_info().1;
+	let mut blocks = vec![];
+	let mut was_in = true;
+	for _ in 0..5 {
+		connect_blocks(&nodes[1], 1);
+		let h = nodes[1].best_block_info().1;
+		let now_in = in_cell(&nodes);
+		let evs = nodes[1].node.get_and_clear_pending_events();
+		let failed = evs.iter().any(|e| matches!(e, Event::HTLCHandlingFailed { failure_type: HTLCHandlingFailureType::Forward { channel_id, .. }, .. } if *channel_id == chan_bc));
+		let locked = nodes[1].node.get_and_clear_pending_msg_events().iter().any(|m| matches!(m, MessageSendEvent::SendSpliceLocked { .. }));
+		blocks.push((h, locked, was_in && !now_in, failed));
+		was_in = now_in;
+	}
+	let _ = lock_h;
+	std::mem::forget(nodes);
+	Ok((in_cltv, out_cltv, best0, blocks))
 }
 
 fn main() {
@@ -187,6 +283,60 @@ fn main() {
 			},
 			Ok(None) => rec.discarded += 1,
 			Err(p) => rec.oracle_fail(format!("dead-downstream scenario panicked: {}", p.chars().take(200).collect::<String>())),
+		}
+	}
+
+	// (5) seeded C08-r4: holding-cell timeout carried through EVERY exit of do_best_block_updated. The splice-lock block
+	// coincides with (d = 0), or precedes by 1 or 2 blocks (d = 1, 2) the first block in which the parked HTLC is within the
+	// grace period. Model op: `node <in> <out> <best> 1 0 1 b:<h>:<exit>:0:0 …` -> log of cell-timeout / fail-back heights.
+	{
+		use lightning::ln::functional_test_utils::ConnectStyle;
+		let styles = [None, Some(ConnectStyle::BestBlockFirst), Some(ConnectStyle::TransactionsFirst), Some(ConnectStyle::FullBlockViaListen)];
+		let n_styles = if args.thorough { 4 } else { 2 };
+		for (si, st) in styles.iter().take(n_styles).enumerate() {
+			for d in [0i32, 1, 2] {
+				let st2 = st.clone();
+				match guarded(std::panic::AssertUnwindSafe(move || splice_cell(d, st2))) {
+					Ok(Ok((in_cltv, out_cltv, best0, blocks))) => {
+						let mut op = format!("node {} {} {} 1 0 1", in_cltv, out_cltv, best0);
+						let mut log: Vec<String> = vec![];
+						for (h, locked, left, failed) in &blocks {
+							op += &format!(" b:{}:{}:0:0", h, if *locked { "splice" } else { "plain" });
+							if *left { log.push(format!("{}:cell", h)); }
+							if *failed { log.push(format!("{}:fail", h)); }
+							// impl oracle (independent of the model): whatever leaves the holding cell by timeout is failed backwards in the same block
+							if *left && !*failed { rec.oracle_fail(format!("holding-cell HTLC (outbound expiry {}) left the holding cell at height {} ({}) without HTLCHandlingFailed / update_fail_htlc upstream (inbound expiry {}) [d={} style#{}]", out_cltv, h, if *locked { "splice_locked block" } else { "plain block" }, in_cltv, d, si)); }
+						}
+						if !blocks.iter().any(|b| b.2) { rec.oracle_fail(format!("holding-cell HTLC (outbound expiry {}) never timed out of the holding cell within {:?}", out_cltv, blocks)); }
+						if d == 0 && !blocks.iter().any(|b| b.1 && b.2) { rec.discarded += 1; } // the coincidence was not produced
+						let ans = if log.is_empty() { "-".to_string() } else { log.join(" ") };
+						rec.case(&op, &ans, &format!("e2e:splice-cell d={} locked-coincides={}", d, blocks.iter().any(|b| b.1 && b.2)), true);
+					},
+					Ok(Err(e)) => { rec.discarded += 1; rec.notes.insert(format!("splice_cell d={} style#{}", d, si), e); },
+					Err(p) => rec.oracle_fail(format!("splice holding-cell scenario d={} panicked: {}", d, p.chars().take(300).collect::<String>())),
+				}
+			}
+		}
+	}
+
+	// (6) the same dead-downstream world against `NodeStep.run`: every height delivered to B (single blocks, or jumps of
+	// `step` blocks of which B only sees the last) with what the block contained, compared with the model's whole action log
+	// (commitment broadcast, HTLC-timeout broadcast, upstream fail-back heights).
+	{
+		let plans: Vec<(u32, u32)> = if args.thorough { vec![(1, 1), (1, 200), (12, 1), (1, 2), (1, 3), (12, 2), (200, 3), (1, 5), (12, 5), (200, 7), (3, 4), (30, 2)] } else { vec![(1, 1), (1, 3), (200, 2), (12, 5)] };
+		for (mine_after, step) in plans {
+			match guarded(std::panic::AssertUnwindSafe(|| dead_downstream_ex(mine_after, step))) {
+				Ok(Some((out_cltv, in_cltv, close_h, _fail_h, _tc, best0, deliv, log))) => {
+					let mut op = format!("node {} {} {} 0 1 1", in_cltv, out_cltv, best0);
+					for (h, c, t) in &deliv { op += &format!(" b:{}:plain:{}:{}", h, *c as u8, *t as u8); }
+					// impl oracle: the commitment goes out at the first delivered height >= expiry + grace, not before
+					let first = deliv.iter().map(|d| d.0).find(|h| *h >= out_cltv + grace as u32);
+					if close_h != first { rec.oracle_fail(format!("dead downstream (step {}): B's commitment broadcast at {:?}, first delivered height >= expiry {} + grace is {:?}", step, close_h, out_cltv, first)); }
+					rec.case(&op, &if log.is_empty() { "-".to_string() } else { log.join(" ") }, &format!("e2e:node-run step={} mine_after={}", step, mine_after.min(99)), true);
+				},
+				Ok(None) => rec.discarded += 1,
+				Err(p) => rec.oracle_fail(format!("dead-downstream node-run scenario panicked: {}", p.chars().take(200).collect::<String>())),
+			}
 		}
 	}
 	rec.notes.insert("rule".into(), "boundary sweep (±window) around every comparison of check_incoming_htlc_cltv for 7 deltas, plus PRNG-drawn real onions through the public peel_payment_onion; every case is distinct by its op text".into());
